@@ -235,3 +235,50 @@ def replay(kind, clause):
             if not close(lost, got, 1e-7, 1e-6):
                 fails.append(f"the step discarded {lost} of water but trash records {got}")
     return {'ok': not fails, 'observed': fails[:3] or 'bake = eager fold', 'expected': 'bake = eager fold, bookkeeping = ledger'}
+
+
+def plate_fill_text(n=6):
+    """bounded: the instruction of a recipe fill_to step on a whole plate lists, per group of wells, the volume added; every
+    stated number must be the amount that well really received, to the precision configured for the STATED unit, and
+    every well that received something must be listed"""
+    import re
+    import pyplate.pyplate as pp
+    fails, count = [], 0
+    si = {'': 1.0, 'm': 1e-3, 'u': 1e-6, 'n': 1e-9}
+    for k in range(1, n + 1):
+        for cap, target, fills in (('5 mL', '2 mL', ['750 uL', '600 uL', '1.7 mL']), ('500 uL', '100 uL', ['33.3 uL', '12.5 uL', '80 uL']),
+                                   ('20 mL', '3.3 mL', ['1.25 mL', '450 uL', '2.95 mL'])):
+            p = Plate('P', cap, rows=2, columns=2)
+            src = Container('src', initial_contents=[(water, '100 mL')])
+            for (r_, c_), q in zip(((1, 1), (1, 2), (2, 1)), fills):
+                v, u = q.split()
+                src, p = Plate.transfer(src, p[r_, c_], f'{float(v) * (1 + (k - 1) / 90):.6g} {u}')
+            r = Recipe().uses(p)
+            r.fill_to(p, water, target)
+            res = r.bake()
+            text = r.steps[0].instructions
+            count += 1
+            added = {}
+            for i in range(2):
+                for j in range(2):
+                    added['AB'[i] + str(j + 1)] = (res['P'].wells[i, j].volume - p.wells[i, j].volume) * 1e-6      # litres
+            stated = {}
+            for num, pre, wells in re.findall(r'(-?\d+\.?\d*(?:e-?\d+)?) (m|u|n|)L to \[([^\]]+)\]', text):
+                for part in wells.split(','):
+                    part = part.strip()
+                    a, _, b = part.partition(':')
+                    b = b or a
+                    for rr in 'AB'['AB'.index(a[0]):'AB'.index(b[0]) + 1]:
+                        for cc in range(int(a[1:]), int(b[1:]) + 1):
+                            stated[rr + str(cc)] = (float(num), pre)
+            for well, vol in added.items():
+                if well not in stated:
+                    if vol > 1e-12:
+                        fails.append(f"{text!r}: well {well} received {vol * 1e6:.6g} uL but is not mentioned")
+                    continue
+                num, pre = stated[well]
+                unit = pre + 'L'
+                prec = pp.config.precisions.get(unit, pp.config.precisions['default'])
+                if abs(num * si[pre] - vol) > (0.5 * 10 ** (-prec) + 1e-9) * si[pre]:
+                    fails.append(f"{text!r}: well {well} received {vol / si[pre]:.6g} {unit}, stated {num} {unit} (precision {prec})")
+    return {'ok': not fails, 'count': count, 'observed': fails[:3] or 'every stated amount is the amount added', 'failures': fails[:6]}
